@@ -7,7 +7,7 @@ RULE = ("(molecule, acyclic single bond between heavy atoms) pairs from corpus c
         "generated family (esters, amides, ethers, thioethers, phosphonates, boronic acids, N-N / N-O / S-halogen / O-halogen bonds): "
         "the two fragments are built by deleting the other side's atoms (index map under the generator's control, radicals closed with "
         "the repository's own add_hydrogens_to_radicals; for every other cut the fragments are handed over as SMILES strings with translated boundary indices, as build_compounds does, first in a merge with a bond and then alone; molecules that already carry a radical are skipped, the closing step would saturate it) and handed to merge() as two compounds with one boundary each [mode A], and "
-        "each fragment alone with its boundary [mode B: completion by an expansion rule], the core left after two cuts as one fragment with two boundaries [mode D] and a fragment next to an alcohol spectator [mode E], and the two fragments together with spectator compounds (water, benzene, triethylamine, dichloromethane; up to three kept spectators, adjacent and apart) in every position of the set [mode C].  Oracle (RDKit): mode A reconstructs the "
+        "each fragment alone with its boundary [mode B: completion by an expansion rule], the core left after two cuts as one fragment with two boundaries [mode D] and a fragment next to an alcohol spectator [mode E], cross merges of open fragments from different molecules [mode X: a raise is tolerated, a returned product must be valid, closed-shell, complete], and the two fragments together with spectator compounds (water, benzene, triethylamine, dichloromethane; up to three kept spectators, adjacent and apart) in every position of the set [mode C].  Oracle (RDKit): mode A reconstructs the "
         "original (canonical SMILES ignoring stereo) unless a restriction rule (no bond) is reported; in every mode the product is a valid "
         "molecule, carbons are conserved, heavy atoms = fragments + compounds named by the reported expansion rules.  Correspondence: "
         "the merged molecule's atom list and bond multiset vs Model/Merge.merge_two_mols, and the reported merge / expansion rule vs "
@@ -46,6 +46,10 @@ FAMILY = ["CCOC(C)=O", "CC(=O)NC", "CCOCC", "CSC", "CC(=O)SC", "CP(=O)(OC)OC", "
           "CC(=O)OC(C)=O", "c1ccccc1OC", "CC(O)CO", "NCC(=O)O", "CS(=O)(=O)Cl", "C[Si](C)(C)Cl", "C[Mg]Br", "CC(C)=NO", "CCN=C=O", "OCCN", "CC#CC", "C=CC",
           "CCBr", "CC(=O)Cl", "c1ccccc1C(=O)OC", "COC(=O)OC", "CNC(=O)OC", "CC(=O)N(C)C", "CSSC", "COO", "CN=NC",
           # hydrogens that stay in the molecular graph (isotope labels): atom count != heavy-atom count
+          # phosphorus / halide partners for cross merges
+          "CP(C)(=O)Cl", "CCOP(=O)(Cl)OCC", "BrP(Br)Br", "CP(C)Cl", "COP(=O)(Cl)OC", "CC(=O)OC", "CCOC(C)(C)C", "CS(=O)(=O)Nc1ccccc1",
+          # atoms with two or more explicit hydrogens at the cut ([NH3+], [SiH3], [BH4-])
+          "C[NH3+]", "CC[NH3+]", "C[SiH3]", "C[SiH2]C", "C[BH3-]", "CC[PH2]", "C[NH2+]C",
           # cuts at an atom that keeps an explicit hydrogen count in its fragment ([nH], [NH2+], [SH](=O)=O)
           "Cn1cccc1", "CC(=O)n1cccc1", "Cn1ccnc1", "C[NH+](C)C", "CS(C)(=O)=O", "Cn1c2ccccc2cc1", "CCn1cccc1",
           "[2H]c1ccc(C(=O)OCC)cc1", "[2H]C([2H])([2H])OC(C)=O", "[2H]OCC", "CC([2H])([2H])OC", "[3H]CC(=O)NC", "[2H]N(C)C(C)=O"]
@@ -127,6 +131,7 @@ def run(ctx):
     restriction = {r.name for r in MergeRule.get_all() if r.bond is None}
     with_actions = {r.name for r in MergeRule.get_all() if r.action1 or r.action2}
     mexprs, mmeta, rexprs, rmeta = [], [], [], []
+    xpool, xfixed = [], []
     calls = []
     o_mb, o_eb = mg.merge_boundaries, mg.expand_boundary
 
@@ -317,6 +322,8 @@ def run(ctx):
                                     ctx.fail("result-not-explained-by-reported-rules", case, {"rules": names, "expected_heavy_atoms": dict(want), "got": heavy(res.mol)})
                             except Exception as e:
                                 ctx.fail("merge-raised", case, {"error": "%s: %s" % (type(e).__name__, str(e)[:160])})
+                if len(xpool) < 400 and smi in FAMILY:
+                    xpool.append((Chem.Mol(fa), ia, m, v, smi)); xpool.append((Chem.Mol(fb), ib, m, u, smi))
                 # ---- mode B: one open fragment, completed by expansion
                 for (f1, i1, n1) in ((fa, ia, v), (fb, ib, u)):
                     case = {"smiles": smi, "bond": [u, v], "mode": "single-fragment", "fragment": Chem.MolToSmiles(f1)}
@@ -356,6 +363,60 @@ def run(ctx):
                         else:
                             rexprs.append("rcase %s %s" % (clist(c["tbl"], lambda t: "(%s, %s, %s)" % (cstr(t[0]), cbool(t[1]), cbool(t[2]))), copt(c["rule"], cstr)))
                             rmeta.append(case)
+        # ---- mode X: cross merges -- two open fragments that come from DIFFERENT molecules (what the imputation does when it joins
+        # the missing parts of several reactants).  A merge that the rules cannot perform may raise (counted); a product that IS returned
+        # must be a valid closed-shell molecule without open boundary whose heavy atoms are those of the two fragments
+        # fixed partners: oxygen / nitrogen fragments of carbonyl compounds against P-H fragments (the phosphorus rules change bond orders
+        # and may fail half-way) -- given as SMILES with boundary and neighbour indices, the way build_compounds passes them
+        OX = [("O", 0, "CC(C)=O", 1), ("CO", 1, "CC(=O)OC", 1), ("CCO", 2, "CCOC(C)(C)C", 3), ("CN", 1, "CC(=O)NC", 1), ("CCO", 2, "CCOC(=O)c1ccccc1", 3), ("O", 0, "CCO", 1)]
+        PH = [("C[PH](C)=O", 1, "CP(C)(=O)Cl", 4), ("CCO[PH](=O)OCC", 3, "CCOP(=O)(Cl)OCC", 5), ("BrPBr", 1, "BrP(Br)Br", 2), ("C[PH]C", 1, "CP(C)Cl", 3), ("CO[PH](=O)OC", 2, "COP(=O)(Cl)OC", 5)]
+        for a in OX:
+            for b in PH:
+                for first, second in ((a, b), (b, a)):
+                    xpool_fixed = [(Chem.MolFromSmiles(first[0]), first[1], Chem.MolFromSmiles(first[2]), first[3], first[2]), (Chem.MolFromSmiles(second[0]), second[1], Chem.MolFromSmiles(second[2]), second[3], second[2])]
+                    xfixed.append(xpool_fixed)
+        for it in range((250 if ctx.quick() else 3000) + len(xfixed)):
+            if it < len(xfixed):
+                (f1, i1, m1, n1, s1), (f2, i2, m2, n2, s2) = xfixed[it]
+            else:
+                if len(xpool) < 2:
+                    break
+                (f1, i1, m1, n1, s1), (f2, i2, m2, n2, s2) = rng.sample(xpool, 2)
+            if s1 == s2:
+                continue
+            case = {"mode": "cross-merge", "fragments": [Chem.MolToSmiles(f1), Chem.MolToSmiles(f2)], "boundaries": [i1, i2], "sources": [s1, s2]}
+            ctx.evaluations += 1
+            try:
+                cs = CompoundSet()
+                c1 = cs.add_compound(Chem.Mol(f1), src_mol=m1); c1.add_boundary(i1, neighbor_index=n1)
+                c2 = cs.add_compound(Chem.Mol(f2), src_mol=m2); c2.add_boundary(i2, neighbor_index=n2)
+                res = mg.merge(cs)
+            except Exception as e:
+                ctx.count("cross", "raised")
+                continue
+            names = [r.name for r in res.rules]
+            ctx.count("cross", "|".join(names) or "(none)")
+            ctx.nontrivial.add(("X", case["fragments"][0], case["fragments"][1], i1, i2))
+            out = res.mol
+            try:
+                Chem.SanitizeMol(Chem.Mol(out))
+            except Exception as e:
+                ctx.fail("merged-product-invalid", case, {"rules": names, "error": str(e)[:120]})
+                continue
+            rad_in = sum(a.GetNumRadicalElectrons() for f in (f1, f2) for a in f.GetAtoms())
+            rad_out = sum(a.GetNumRadicalElectrons() for a in Chem.MolFromSmiles(Chem.MolToSmiles(out)).GetAtoms()) if Chem.MolFromSmiles(Chem.MolToSmiles(out)) is not None else -1
+            # (only when nothing but single-bond rules was applied: how many hydrogens a DOUBLE bond between fragments of different
+            # molecules should consume is not fixed by the property, which speaks of the two fragments of one molecule)
+            if rad_out != rad_in and all(n in ("default single bond", "phosphor single bond") for n in names):
+                ctx.fail("merged-product-invalid", case, {"rules": names, "product": Chem.MolToSmiles(out), "unpaired_electrons": rad_out})
+            if res.boundaries:
+                ctx.fail("open-boundary-left", case, {"rules": names})
+            want = collections.Counter(heavy(f1)); want.update(heavy(f2))
+            for n in names:
+                if n in expand_smiles:
+                    want.update(heavy(Chem.MolFromSmiles(expand_smiles[n])))
+            if dict(want) != heavy(out):
+                ctx.fail("atoms-not-conserved", case, {"rules": names, "expected": dict(want), "got": heavy(out)})
     finally:
         mg.merge_boundaries, mg.expand_boundary = o_mb, o_eb
     ctx.count("cuts", "merge_graph_cases", len(mexprs)); ctx.count("cuts", "rule_selection_cases", len(rexprs))
